@@ -1,22 +1,37 @@
 ----------------------------- MODULE Trace_Bonds -----------------------------
 (* C10: TLC judges recorded runs of the real MakeBonds.run_system.
+
+   SMALL events (generator families, <= 14 atoms):
    Batch[i] = [sys   |-> system as in Bonds.tla,
                got   |-> [err   : BOOLEAN,                        the real code raised
-                          mols  : Seq(Seq(atom)),                  node sets of system.molecules afterwards
+                          mols  : Seq(Seq(atom)),                  system.molecules afterwards, atoms in NODE ORDER
+                          inorder : Seq(atom),                     the atoms in the order MakeBonds received them
+                                                                   (input molecules one after the other, node order)
                           edges : Seq([a, b, hasd, d2, old])],     bonds found in those molecules: 'distance' present,
                                                                    its square in pm^2 (-1 = not an integer within the
                                                                    tolerance), marker attribute of input bonds present
                focus |-> [a, b]]                                   pair the generator aimed at (0,0 = none)
    The verdict names the first clause of the statement that the recorded result breaks.  `info` reports, for the
    evidence, which variants (dropped clauses) this input distinguishes from the property and which conjuncts fail
-   for the focus pair - computed here, from the specification, not by the generator.                              *)
+   for the focus pair - computed here, from the specification, not by the generator.
+
+   REAL events (kind = "real": real structures through the reading front end, hundreds to thousands of atoms):
+   Batch[i] = [kind |-> "real",
+               hasfile |-> BOOLEAN, file |-> BondsRead file, read |-> what the reader returned      (see BondsRead.tla)
+               sys  |-> the system MakeBonds received, atoms in input order, plus oldd : Seq([hasd, d2]) = the
+                        'distance' attribute every input bond had,
+               got  |-> [err, mols, molof : Seq(molecule index per atom), edges, wunk, wdup : warnings of type
+                         unknown-residue / inconsistent-data]]
+   judged with the arrangement for large systems (Bonds!FastOutC), which the TAB model and every SMALL event check
+   against the declarative form.                                                                                  *)
 EXTENDS Integers, Sequences, FiniteSets, TLC, Json, IOUtils
 
 Batch == JsonDeserialize(IOEnv.TRACE_FILE)
 
 B == INSTANCE Bonds WITH Els <- {}, XPairs <- {}, Fudges <- {}, NameTriples <- {}, ResnameTriples <- {},
-                         MolTriples <- {}, ResidTriples <- {}, OldChoices <- {}, Modes <- {},
+                         MolTriples <- {}, ResidTriples <- {}, OldChoices <- {}, Modes <- {}, SweepEls <- {}, SweepFudges <- {},
                          sys <- <<>>, out <- <<>>, sens <- {}
+R == INSTANCE BondsRead
 
 VARIABLES tid, verdict, info
 vars == <<tid, verdict, info>>
@@ -28,6 +43,8 @@ Pick(S)    == CHOOSE x \in S : TRUE
 \* report the failing conjunct in a fixed order
 FirstFailing(F) == IF "radii" \in F THEN "radii" ELSE IF "within" \in F THEN "within" ELSE IF "hh" \in F THEN "hh"
                    ELSE IF "hacross" \in F THEN "hacross" ELSE IF "nonedge" \in F THEN "nonedge" ELSE "bonded"
+\* the atoms of a molecule are listed in the order of the input
+Increasing(q) == \A k \in 1..(Len(q) - 1) : q[k] < q[k + 1]
 
 Judge(e) ==
   LET s  == e.sys
@@ -44,10 +61,14 @@ Judge(e) ==
                   k \in {x \in DOMAIN g.edges : g.edges[x].hasd}}
          GO  == {B!Norm(g.edges[k].a, g.edges[k].b) : k \in {x \in DOMAIN g.edges : g.edges[x].old}}
          op  == B!OpOut(s)
+         fo  == B!FastOut(s)
+         pos == [t \in ToSet(g.inorder) |-> CHOOSE k \in DOMAIN g.inorder : g.inorder[k] = t]
      IN IF op.edges # o.edges \/ op.dist # o.dist THEN "operational-differs-from-declarative"
+        ELSE IF fo.edges # o.edges \/ fo.dist # o.dist \/ fo.mols # o.mols \/ B!AnyNearC(s) THEN "fast-differs-from-declarative"
         ELSE IF g.err THEN "exception"
         ELSE IF SumLen(g.mols) # Len(s.atoms) \/ UNION GM # B!Idx(s) THEN "atoms-not-partitioned"
-        ELSE IF \E R \in B!Residues(s, B!SPEC) : ~\E M \in GM : R \subseteq M THEN "residue-split"
+        ELSE IF Len(g.inorder) # Len(s.atoms) \/ ToSet(g.inorder) # B!Idx(s) THEN "malformed-input"
+        ELSE IF \E Q \in B!Residues(s, B!SPEC) : ~\E M \in GM : Q \subseteq M THEN "residue-split"
         ELSE IF Old \ GE # {} THEN "old-bond-lost " \o ToString(Pick(Old \ GE))
         ELSE IF Old \ GO # {} THEN "old-bond-attributes-lost " \o ToString(Pick(Old \ GO))
         ELSE IF NEd \ GE # {} THEN "name-bond-missing " \o ToString(Pick(NEd \ GE))
@@ -62,6 +83,8 @@ Judge(e) ==
                   THEN "existing-bond-rebonded " \o ToString(Pick(GD \ o.dist))
                   ELSE "distance-attribute-wrong " \o ToString(Pick((GD \ o.dist) \cup (o.dist \ GD)))
         ELSE IF GM # o.mols THEN "molecule-not-connected-on-residue-graph"
+        ELSE IF \E m \in DOMAIN g.mols : ~Increasing([k \in DOMAIN g.mols[m] |-> pos[g.mols[m][k]]])
+             THEN "molecule-atoms-not-in-input-order"
         ELSE "ok"
 
 Info(e) ==
@@ -80,10 +103,82 @@ Info(e) ==
            nbond   |-> Cardinality(o.edges \ Bd),
            nmol    |-> Cardinality(o.mols)]
 
+(* ------------------------------------------------------------------ real structures *)
+JudgeBig(e) ==
+  LET s == e.sys
+      g == e.got
+  IN IF ~B!WellFormedBig(s) \/ Len(s.oldd) # Len(s.old) THEN "malformed-input"
+     ELSE IF B!AnyNearC(s) THEN "unspecified-near-threshold"
+     ELSE IF g.err THEN "exception"
+     ELSE
+     LET c   == B!Ctx(s)
+         o   == B!FastOutC(s, c)
+         n   == Len(s.atoms)
+         Old == B!OldE(s, B!SPEC)
+         B0  == TLCEval(Old \cup o.named)
+         GE  == TLCEval({B!Norm(g.edges[k].a, g.edges[k].b) : k \in DOMAIN g.edges})
+         GO  == TLCEval({B!Norm(g.edges[k].a, g.edges[k].b) : k \in {x \in DOMAIN g.edges : g.edges[x].old}})
+         \* 'distance' attributes: of bonds made by name or guessed / of input bonds that no block re-made
+         OldOnly == TLCEval(Old \ o.named)
+         GDnew == TLCEval({<<B!Norm(g.edges[k].a, g.edges[k].b)[1], B!Norm(g.edges[k].a, g.edges[k].b)[2], g.edges[k].d2>> :
+                           k \in {x \in DOMAIN g.edges : g.edges[x].hasd /\ B!Norm(g.edges[x].a, g.edges[x].b) \notin OldOnly}})
+         GDold == TLCEval({<<B!Norm(g.edges[k].a, g.edges[k].b), g.edges[k].hasd, g.edges[k].d2>> :
+                           k \in {x \in DOMAIN g.edges : B!Norm(g.edges[x].a, g.edges[x].b) \in OldOnly}})
+         IDold == TLCEval({<<B!Norm(s.old[k][1], s.old[k][2]), s.oldd[k].hasd, s.oldd[k].d2>> :
+                           k \in {x \in DOMAIN s.old : B!Norm(s.old[x][1], s.old[x][2]) \in OldOnly}})
+         GM  == TLCEval({ToSet(g.mols[k]) : k \in DOMAIN g.mols})
+         nfbU == Cardinality({Q \in c.res : c.fb[B!MinOf(Q)] /\ ~B!HasBlock(s, B!ResName(s, Q))})
+         nfbD == Cardinality({Q \in c.res : c.fb[B!MinOf(Q)] /\ B!HasBlock(s, B!ResName(s, Q))})
+     IN IF SumLen(g.mols) # n \/ Len(g.molof) # n
+           \/ \E m \in DOMAIN g.mols : \E k \in DOMAIN g.mols[m] : ~(g.mols[m][k] \in 1..n /\ g.molof[g.mols[m][k]] = m)
+        THEN "atoms-not-partitioned"
+        ELSE IF \E i \in 1..n : g.molof[i] # g.molof[c.rid[i]] THEN "residue-split"
+        ELSE IF Old \ GE # {} THEN "old-bond-lost " \o ToString(Pick(Old \ GE))
+        ELSE IF Old \ GO # {} THEN "old-bond-attributes-lost " \o ToString(Pick(Old \ GO))
+        ELSE IF o.named \ GE # {} THEN "name-bond-missing " \o ToString(Pick(o.named \ GE))
+        ELSE IF GE \ o.edges # {}
+             THEN LET p == Pick(GE \ o.edges) IN
+                  IF B!NonEdgeC(s, c, p[1], p[2]) THEN "bond-on-block-non-edge " \o ToString(p)
+                  ELSE IF ~s.dist THEN "distance-bond-although-distances-off " \o ToString(p)
+                  ELSE IF ~B!CloseBox(s, B!CMax(s), p[1], p[2]) THEN "bond-violates-within " \o ToString(p)
+                  ELSE "bond-violates-" \o FirstFailing(B!FailingC(s, c, p, B0)) \o " " \o ToString(p)
+        ELSE IF o.edges \ GE # {} THEN "distance-bond-missing " \o ToString(Pick(o.edges \ GE))
+        ELSE IF GDold # IDold THEN "existing-bond-rebonded " \o ToString(Pick((GDold \ IDold) \cup (IDold \ GDold)))
+        ELSE IF GDnew # o.dist THEN "distance-attribute-wrong " \o ToString(Pick((GDnew \ o.dist) \cup (o.dist \ GDnew)))
+        ELSE IF GM # o.mols THEN "molecule-not-connected-on-residue-graph"
+        ELSE IF \E m \in DOMAIN g.mols : ~Increasing(g.mols[m]) THEN "molecule-atoms-not-in-input-order"
+        \* make_bonds documents one warning per residue that falls back to distances
+        ELSE IF s.name /\ (g.wunk # nfbU \/ g.wdup # nfbD) THEN "fall-back-warnings-wrong"
+        ELSE "ok"
+
+InfoBig(e) ==
+  LET s == e.sys IN
+  IF ~B!WellFormedBig(s) \/ B!AnyNearC(s) THEN [natoms |-> 0]
+  ELSE LET c  == B!Ctx(s)
+           o  == B!FastOutC(s, c)
+           B0 == TLCEval(B!OldE(s, B!SPEC) \cup o.named)
+           Fl == TLCEval([p \in B!CandPairs(s) |-> B!FailingC(s, c, p, B0)])
+       IN [natoms |-> Len(s.atoms), nres |-> Cardinality(c.res),
+           nnamed |-> Cardinality({Q \in c.res : c.nb[B!MinOf(Q)]}),
+           nfallback |-> Cardinality({Q \in c.res : c.fb[B!MinOf(Q)]}),
+           nold |-> Cardinality(B!OldE(s, B!SPEC)), nname |-> Cardinality(o.named), nguess |-> Cardinality(o.guessed),
+           nmol |-> Cardinality(o.mols), ninmol |-> Cardinality({s.atoms[i].mol : i \in DOMAIN s.atoms}),
+           ncand |-> Cardinality(DOMAIN Fl),
+           \* close pairs whose only failing conjunct is c: each of them is a bond the real code must NOT have made
+           sole |-> [x \in B!ConjNames |-> IF s.dist THEN Cardinality({p \in DOMAIN Fl : Fl[p] = {x}}) ELSE 0],
+           \* residues of different input molecules with coinciding chain / number / name / insertion code
+           twins |-> Cardinality({Q \in c.res : \E P \in c.res : P # Q /\
+                                   B!ResKey("no-mol", s.atoms[B!MinOf(P)]) = B!ResKey("no-mol", s.atoms[B!MinOf(Q)])})]
+
+JudgeReal(e) ==
+  LET rv == IF e.hasfile THEN R!JudgeRead(e.file, e.read) ELSE "ok"
+  IN IF rv # "ok" THEN rv ELSE JudgeBig(e)
+
+IsReal(e) == "kind" \in DOMAIN e /\ e.kind = "real"
 Init == tid \in 1..Len(Batch) /\ verdict = "pending" /\ info = <<>>
 Eval == /\ verdict = "pending"
-        /\ verdict' = Judge(Batch[tid])
-        /\ info' = Info(Batch[tid])
+        /\ verdict' = IF IsReal(Batch[tid]) THEN JudgeReal(Batch[tid]) ELSE Judge(Batch[tid])
+        /\ info' = IF IsReal(Batch[tid]) THEN InfoBig(Batch[tid]) ELSE Info(Batch[tid])
         /\ UNCHANGED tid
 Spec == Init /\ [][Eval]_vars
 =============================================================================
